@@ -124,7 +124,7 @@ def run(n_hist, seed, length):
                     msg = {"accept_ownership": {}}
                     who = r.choice([dump["pending_owner"] or su.nominee, su.nominee, su.nominee2, who])
                 elif x < 0.56:
-                    ch = r.choice([None, None, "channel-1", "channel-99"])
+                    ch = r.choice([None, None, "channel-1", "channel-99", "", "", " ", "channel-"])
                     rc = r.choice(su.users + su.native + [su.contract, "osmo1bad", su.native[0].upper()])
                     msg = {"spend_funds": {"amount": coin(r.choice(su.denoms), r.choice([0, 1, 10 ** 6, 2 ** 128 - 1])),
                                            "receiver": rc, "channel_id": ch}}
